@@ -293,6 +293,8 @@ def _guards(run, prog, et):
             return True
         if e.targets:
             q = e.targets[0].qual
+            if e.inlined:
+                return False  # an extracted helper analysed in place: its body's events are on the path
             if q in ("sd.format_address", hp.qual) or e.targets[0].module.short == "header" and e.targets[0].name in ("parse",):
                 return False
             return True
